@@ -90,8 +90,10 @@ Theorem C09_commit_inv :
 Proof. exact commit_inv. Qed.
 Print Assumptions C09_commit_inv.
 
-(** Unless a valid renter signature is delivered (or an account-paid request that is valid
-    and names a stored sector), roots, revision and balances are exactly as before: stopping
+(** Unless a valid renter signature is delivered (in a signature message, a listing or a
+    funding request) or an account-paid request that is valid and names a stored sector —
+    on the current stream or on another stream while the current handler waits —, roots,
+    revision and balances are exactly as before: stopping
     after any message, closing the stream, sending a bad signature, reading or verifying a
     sector the host does not store, an invalid account request, or any other message
     sequence is a no-op on the contractor state. *)
@@ -199,3 +201,29 @@ Theorem C09_account_rpc_model :
      then Some (mk_host (h_roots h) (h_rev h) (h_account h - cost)) else None).
 Proof. exact account_rpc_model. Qed.
 Print Assumptions C09_account_rpc_model.
+
+(** Funding accounts from the contract (the other RPC that revises it) moves exactly the
+    amount from the renter output to the account, advances the revision number by one and
+    leaves the roots alone; a refused funding changes nothing. *)
+Theorem C09_fund_rpc_model :
+  ∀ (h : host) (valid lk sg : bool) (amount : N),
+    do_fund h valid lk sg amount =
+    (if valid && lk && sg && (amount <=? r_funds (h_rev h))%N
+     then Some (mk_host (h_roots h)
+                  (mk_rev (r_num (h_rev h) + 1) (r_root (h_rev h)) (r_size (h_rev h)) (r_cap (h_rev h))
+                     (r_funds (h_rev h) - amount) (r_hostval (h_rev h) + amount) (r_missed (h_rev h) - 0))
+                  (h_account h + amount))
+     else None).
+Proof. exact fund_rpc_model. Qed.
+Print Assumptions C09_fund_rpc_model.
+
+(** Renewal: the new contract commits to the same file and holds the same roots, so the state
+    predicate carries over to it. *)
+Theorem C09_renewal_keeps_roots :
+  ∀ (h : host) (funds hostval missed : N),
+    committed_ok h →
+    committed_ok (renew h funds hostval missed) ∧
+    h_roots (renew h funds hostval missed) = h_roots h ∧
+    h_account (renew h funds hostval missed) = h_account h.
+Proof. exact renew_ok. Qed.
+Print Assumptions C09_renewal_keeps_roots.
